@@ -201,7 +201,13 @@ def omega_values(ospec, k):
 
 
 def make_omega(pp, ospec, k_for_tables):
+    if ospec['cls'] == 'Literal':
+        # tabulated values fixed in the record (C16: what was on the simulated disk when a handle was created)
+        return pp.omega.FromArray(omega=np.array(ospec['kw']['values'], dtype=float))
     if ospec['cls'] == 'FromArray':
+        if ospec['kw'].get('grid'):
+            # the table was computed by the user for the grid that was current at that time
+            k_for_tables = RefGrid(*ospec['kw']['grid']).k
         vals = omega_values(ospec, k_for_tables)
         if ospec['kw'].get('with_k'):
             return pp.omega.FromArray(omega=list(vals), k=np.copy(k_for_tables))
